@@ -106,19 +106,27 @@ ContainsRing(shell, hole) == \A i \in 1..Len(hole) : PointInRing(shell, hole[i])
 (* ---------------- what is asked of an assembly ---------------- *)
 (* sample locations: the centres of the unit cells of the lattice (never on a loop) *)
 CONSTANTS Size, MaxOuters, MaxInners
-Samples == {<<2 * x + 1, 2 * y + 1>> : x, y \in 0..(Size - 1)}       \* in doubled coordinates
-Dbl(r) == [i \in 1..Len(r) |-> <<2 * r[i][1], 2 * r[i][2]>>]
+(* two locations per unit cell, at (x + 1/4, y + 1/2) and (x + 3/4, y + 1/2): never on an axis-parallel or 45-degree edge of
+   the catalogue, and one on either side of a diagonal that splits the cell (coordinates times four) *)
+Samples == {<<4 * x + 1, 4 * y + 2>> : x, y \in 0..(Size - 1)} \cup {<<4 * x + 3, 4 * y + 2>> : x, y \in 0..(Size - 1)}
+Dbl(r) == [i \in 1..Len(r) |-> <<4 * r[i][1], 4 * r[i][2]>>]
 In2(ring, s) == PointInRing(Dbl(ring), s) > 0
+Inside(ring) == {s \in Samples : In2(ring, s)}
 Winding(os, is, s) == Cardinality({x \in 1..Len(os) : In2(os[x], s)}) - Cardinality({y \in 1..Len(is) : In2(is[y], s)})
 CoveredBy(polys, s) == \E p \in 1..Len(polys) : In2(polys[p][1], s) /\ \A h \in 2..Len(polys[p]) : ~In2(polys[p][h], s)
 HolesInShells(polys) == \A p \in 1..Len(polys) : \A h \in 2..Len(polys[p]) : ContainsRing(polys[p][1], polys[p][h])
 CoverageRight(os, is, polys) == \A s \in Samples : CoveredBy(polys, s) <=> (Winding(os, is, s) >= 1)
 (* inputs a boundary that visits no centre more than twice can produce: nowhere enclosed twice, nowhere enclosed negatively,
-   no lattice point on more than two loops, no two loops crossing *)
+   no lattice point on more than two loops, no two loops crossing or partly overlapping *)
 Visits(os, is, p) == Cardinality({x \in 1..Len(os) : p \in SeqToSet(os[x])}) + Cardinality({y \in 1..Len(is) : p \in SeqToSet(is[y])})
 Regular(os, is) == /\ \A s \in Samples : Winding(os, is, s) \in {0, 1}
                    /\ \A x, y \in 0..Size : Visits(os, is, <<x, y>>) <= 2
                    /\ NoCrossing(<<os \o is>>)                     \* C01: snap rounding never makes loops cross
+                   /\ LET all == os \o is                          \* ... nor cross through a common vertex: any two loops are
+                      IN  \A x, y \in 1..Len(all) :                \* nested or enclose disjoint areas
+                            LET a == Inside(all[x])
+                                b == Inside(all[y])
+                            IN  a \cap b = {} \/ a \subseteq b \/ b \subseteq a
 
 (* ---------------- the catalogue and the enumeration ---------------- *)
 Box(x0, y0, x1, y1) == <<<<x0, y0>>, <<x1, y0>>, <<x1, y1>>, <<x0, y1>>>>       \* counter-clockwise
@@ -126,10 +134,10 @@ Catalogue == << Box(0, 0, 4, 4),        \* 1  the whole window                  
                 Box(0, 0, 2, 2),        \* 2  shares the corner (0,0) with 1          4
                 Box(1, 1, 3, 3),        \* 3  strictly inside 1, shares (1,1)-(2,2).. with nothing on 1   4  (equal area with 2: disjoint interiors overlap)
                 Box(2, 1, 4, 4),        \* 4  shares the corner (4,4) with 1, touches 2 at no vertex      6
-                Box(0, 0, 4, 2),        \* 5  lower half                                8
+                <<<<0, 0>>, <<4, 0>>, <<0, 4>>>>,     \* 5  triangle under a descending hypotenuse (ringContains on a sloped edge)   8
                 Box(1, 1, 2, 2),        \* 6  inside 2 and 3, shares (1,1) with 3 and (2,2) with 2        1
                 Box(0, 0, 3, 3),        \* 7  between 1 and 2                           9
-                Box(0, 2, 2, 4) >>      \* 8  upper left quarter, touches 2 along an edge                  4
+                <<<<0, 0>>, <<4, 0>>, <<4, 4>>>> >>   \* 8  triangle under an ascending hypotenuse                                     8
 Rot(r, k) == [i \in 1..Len(r) |-> r[((i + k - 1) % Len(r)) + 1]]
 Outers == {Catalogue[c] : c \in 1..Len(Catalogue)}
 Inners == {Reverse(Rot(Catalogue[c], k)) : c \in 1..Len(Catalogue), k \in {0, 2}}      \* clockwise, two starting vertices
